@@ -453,13 +453,15 @@ REORDER = ("sort", "sort_by", "sort_by_key", "sort_unstable", "sort_unstable_by"
            "swap_remove", "dedup", "dedup_by", "dedup_by_key", "retain", "retain_mut", "rev", "select_nth_unstable", "select_nth_unstable_by_key", "partition", "shuffle", "insert", "truncate", "split_off")
 
 
-def rule_batch_order(ctx, cfg, F, rule_name="RT-ORDER"):
+def rule_batch_order(ctx, cfg, F, rule_name="RT-ORDER", only_prefix=None):
     R = ctx.rule(rule_name, "the batch of events returned by select() is consumed in the order returned: no sorting, reversing, swapping, filtering or partial consumption API is applied to it "
                  "between select() and the dispatch loop (per-channel message order is the order of the batch)")
     n = 0
     for f in sorted(F.fns.values(), key=lambda x: x.path):
         sels = [(b, t) for b, t in f.calls() if strip_generics(callee_name(t)).endswith("ReceiverSet::select") and not f.path.startswith("platform::")]
         if not sels:
+            continue
+        if only_prefix and only_prefix not in f.path:
             continue
         tr = Tracer(f)
         sel_blocks = {b for b, t in sels}
